@@ -234,7 +234,9 @@ func (c *FnCtx) sortOf(t types.Type) string {
 			return SBool
 		case u.Info()&types.IsInteger != 0:
 			w, _, fixed, _ := intWidth(t)
-			if c.mode == ModeBV && fixed {
+			// bit-vector mode: 8/32/64-bit fixed-width integers are bit-vectors; 16-bit
+			// integers (only ever used as lengths) and int/uint stay mathematical.
+			if c.mode == ModeBV && fixed && w != 16 {
 				return bvSort(w)
 			}
 			return SInt
